@@ -89,6 +89,7 @@ class SRun:
             self.h = HState(cfg, prefix=prefix)
         self.fails: list[Failure] = []
         self.views: dict = {}
+        self.dates: dict = {}  # session -> {uid: every INTERNALDATE string it was shown for that UID}
         self.fcache: dict = {}  # session -> per position: the last FLAGS value the session was sent (None: never told)
         self.inflight: dict = {}
         self.kinds: dict = {}
@@ -144,6 +145,10 @@ class SRun:
                 while len(fc) < len(v):
                     fc.append(None)
                 fc[r.num - 1] = norm_flags([str(x) for x in (it["FLAGS"] or [])])
+            if "UID" in it and it.get("INTERNALDATE") is not None:
+                d_ = it["INTERNALDATE"]
+                d_ = bytes(d_).decode("latin-1") if isinstance(d_, (bytes, bytearray)) else str(d_)
+                self.dates.setdefault(sess.name, {}).setdefault(int(it["UID"]), set()).add(d_)
             if "UID" in it:
                 u = int(it["UID"])
                 if v[r.num - 1] is None:
@@ -408,6 +413,14 @@ class SRun:
             got = self.views[sn]
             if [g for g in got] != want and any(g is not None and g != w_ for g, w_ in zip(got, want)):
                 self.fail("C01.final-view", {}, want, got)
+            # a UID's internal date never changes: whatever date a session was shown for a message during the phase is the one
+            # the message has in the end (sessions that stayed in one mailbox)
+            if not any(e["op"] in ("select", "examine", "close") for e in cmds[sn]):
+                fin_dates = {m_["uid"]: m_.get("idate") for m_ in (obs.get(sel) or {}).get("msgs", [])}
+                for u_, seen_ in sorted(self.dates.get(sn, {}).items()):
+                    if fin_dates.get(u_) is not None and any(x != fin_dates[u_] for x in seen_):
+                        self.fail("C03.internaldate-changed", {"mbox": "selected"}, fin_dates[u_], sorted(seen_))
+                        break
             # what the session was last told about each message's flags is what the flags are (after its NOOP)
             fc = fc_saved.get(sn)
             fin = final_lists.get(sel)
